@@ -249,6 +249,38 @@ def _name(label):
     return "n%s" % label
 
 
+def _reversed_children(base):
+    """children property override presenting the children in reverse order (a 'newest first' view); setter and deleter are the mixin's own."""
+
+    def getter(self):
+        return tuple(reversed(base.children.fget(self)))
+
+    def setter(self, value):
+        base.children.fset(self, value)
+
+    def deleter(self):
+        base.children.fdel(self)
+
+    return property(getter, setter, deleter)
+
+
+class HRevNM(HookMix, NodeMixin):
+    separator = "/"
+    children = _reversed_children(NodeMixin)
+
+    def __init__(self, name):
+        self.name = name
+
+
+class HRevLM(HookMix, LightNodeMixin):
+    __slots__ = ("name",)
+    separator = "/"
+    children = _reversed_children(LightNodeMixin)
+
+    def __init__(self, name):
+        self.name = name
+
+
 LOCKED = [False]
 
 
@@ -298,6 +330,8 @@ CLASSES = {
     "DictLM": (lambda l: _nodes.DictLM(_name(l)), "LM", False),
     "LateSuperNM": (lambda l: _nodes.LateSuperNM(_name(l)), "NM", False),
     "LockNM": (lambda l: LockNM(_name(l)), "NM", False),
+    "HRevNM": (lambda l: HRevNM(_name(l)), "NM", True),
+    "HRevLM": (lambda l: HRevLM(_name(l)), "LM", True),
 }
 NM_CLASSES = [k for k, v in CLASSES.items() if v[1] == "NM"]
 LM_CLASSES = [k for k, v in CLASSES.items() if v[1] == "LM"]
